@@ -40,12 +40,13 @@ def structures(tier):
 
 
 def _forms(ak):
-    """renderings the property admits for the word ak: as is, or its low 32 bits zero/sign-extended,
-    or all 64 bits read as signed"""
+    """renderings the property admits for the word ak"""
     t = term(ak)
     lo32 = z3.Extract(31, 0, t)
     lo64 = z3.Extract(63, 0, t)
-    return [t, z3.ZeroExt(W - 32, lo32), z3.SignExt(W - 32, lo32), z3.SignExt(W - 64, lo64)]
+    # lossless: the word itself or all 64 bits read as signed; tolerated: the low 32 bits as an unsigned value (a masked
+    # 32-bit C argument).  A sign-extended 32-bit truncation loses bits AND changes the sign: not a rendering of the word.
+    return [t, z3.ZeroExt(W - 32, lo32), z3.SignExt(W - 64, lo64)]
 
 
 def run(ctx, st):
@@ -111,4 +112,4 @@ def _cforms(v):
     s32 = lo32 - (1 << 32) if lo32 >> 31 else lo32
     lo64 = v & 0xffffffffffffffff
     s64 = lo64 - (1 << 64) if lo64 >> 63 else lo64
-    return [v, lo32, s32, s64]
+    return [v, lo32, s64]
